@@ -642,10 +642,15 @@ impl FileSystem for Vfs {
 
     #[inline]
     fn id_remap_with_nodeid(&self, ctx: &mut Context, nodeid: Self::Inode) -> Result<()> {
-        // Use the per-mount mapping identified by the fs_idx encoded in
-        // nodeid, falling back to the global mapping for pseudo-fs
-        // operations (fs_idx == 0).
-        self.remap_ctx_ids(ctx, self.get_effective_id_mapping(nodeid.fs_idx()))
+        // Use the per-mount mapping of the mount the request is routed to:
+        // ROOT_ID is redirected to a file system mounted on "/", otherwise
+        // the fs_idx is encoded in nodeid. Fall back to the global mapping
+        // for pseudo-fs operations (fs_idx == 0).
+        let fs_idx = match self.get_real_rootfs(nodeid) {
+            Ok((_, idata)) => idata.fs_idx(),
+            Err(_) => nodeid.fs_idx(),
+        };
+        self.remap_ctx_ids(ctx, self.get_effective_id_mapping(fs_idx))
     }
 
     #[cfg(any(feature = "vhost-user-fs", feature = "virtiofs"))]
